@@ -228,6 +228,10 @@ void tuning_str(char *buf, size_t n);
 /* arrays are allocated with SUPERLU_MALLOC so that the library's Destroy_* may free them */
 void mk_sparse(const vf_api *P, const vf_mat *A, int rowmajor, SuperMatrix *S);
 void mk_dense(const vf_api *P, int m, int ncol, int ld_, const ldc *colmajor /* m x ncol, may be NULL */, SuperMatrix *D, ldc padval);
+/* caller workspace filled with junk (pattern from the case index; left untouched under MemorySanitizer / VF_NOJUNK so that
+   those tools see reads of uninitialised workspace): the library must not rely on the contents of work[] */
+void *vf_ws_alloc(vf_case *c, size_t n);
+void  vf_ws_fill(vf_case *c, void *p, size_t n);
 void free_sparse(SuperMatrix *S);     /* Destroy_CompCol_Matrix / CompRow */
 void free_dense(SuperMatrix *D);
 void dense_read(const vf_api *P, const SuperMatrix *D, ldc *out /* nrow x ncol col-major */);
